@@ -86,7 +86,7 @@ class Dev:
     def _status(self, op):
         mode = self._mode(op)
         if mode == "raise":
-            self.H.ledger.append([self.name, op, "raise"])
+            self.H.led([self.name, op, "raise"])
             raise DeviceError(f"{self.name}.{op} raised")
         st = FakeStatus(self.H, self.name, op)
         if mode == "done":
@@ -103,11 +103,11 @@ class Motor(Dev):
     def set(self, v, **kw):
         st = self._status("set")
         self.position = v
-        self.H.ledger.append([self.name, "set", v])
+        self.H.led([self.name, "set", v])
         return st
 
     def stop(self, *, success=True):
-        self.H.ledger.append([self.name, "stop", None])
+        self.H.led([self.name, "stop", None])
         if self._mode("stop") == "raise":
             raise DeviceError(f"{self.name}.stop raised")
 
@@ -124,13 +124,13 @@ class Motor(Dev):
         return {}
 
     def stage(self):
-        self.H.ledger.append([self.name, "stage", None])
+        self.H.led([self.name, "stage", None])
         if self._mode("stage") == "raise":
             raise DeviceError(f"{self.name}.stage raised")
         return [self]
 
     def unstage(self):
-        self.H.ledger.append([self.name, "unstage", None])
+        self.H.led([self.name, "unstage", None])
         if self._mode("unstage") == "raise":
             raise DeviceError(f"{self.name}.unstage raised")
         return [self]
@@ -139,15 +139,15 @@ class Motor(Dev):
 class Det(Dev):
     def trigger(self):
         st = self._status("trigger")
-        self.H.ledger.append([self.name, "trigger", None])
+        self.H.led([self.name, "trigger", None])
         return st
 
     def read(self):
         if self._mode("read") == "raise":
-            self.H.ledger.append([self.name, "read", "raise"])
+            self.H.led([self.name, "read", "raise"])
             raise DeviceError(f"{self.name}.read raised")
         v = sum(d.position for d in self.H.devs.values() if isinstance(d, Motor)) * 10 + self.spec.get("offset", 0)
-        self.H.ledger.append([self.name, "read", v])
+        self.H.led([self.name, "read", v])
         return {self.name: {"value": v, "timestamp": 0.0}}
 
     def describe(self):
@@ -160,13 +160,13 @@ class Det(Dev):
         return {}
 
     def stage(self):
-        self.H.ledger.append([self.name, "stage", None])
+        self.H.led([self.name, "stage", None])
         if self._mode("stage") == "raise":
             raise DeviceError(f"{self.name}.stage raised")
         return [self]
 
     def unstage(self):
-        self.H.ledger.append([self.name, "unstage", None])
+        self.H.led([self.name, "unstage", None])
         if self._mode("unstage") == "raise":
             raise DeviceError(f"{self.name}.unstage raised")
         return [self]
@@ -174,7 +174,7 @@ class Det(Dev):
 
 class PausableMotor(Motor):
     def pause(self):
-        self.H.ledger.append([self.name, "pause", None])
+        self.H.led([self.name, "pause", None])
         m = self._mode("pause")
         if m == "noreplay":
             from bluesky.utils import NoReplayAllowed
@@ -182,19 +182,19 @@ class PausableMotor(Motor):
             raise NoReplayAllowed()
 
     def resume(self):
-        self.H.ledger.append([self.name, "resume", None])
+        self.H.led([self.name, "resume", None])
 
 
 class Sig(Dev):
     value = 0
 
     def subscribe(self, cb, **kw):
-        self.H.ledger.append([self.name, "subscribe", None])
+        self.H.led([self.name, "subscribe", None])
         self.subs.append(cb)
         return len(self.subs)
 
     def clear_sub(self, cb):
-        self.H.ledger.append([self.name, "clear_sub", None])
+        self.H.led([self.name, "clear_sub", None])
         # ophyd semantics: every registration of this callback is removed
         self.subs = [c for c in self.subs if c != cb]
 
@@ -238,11 +238,27 @@ class Harness:
         self.n_created = 0
         self.notes = []
         self.return_texts = []
+        self.return_causes = []
+        self.tick = 0
+        self.ticks = {"msgs": [], "trans": [], "docs": [], "ledger": [], "yields": [], "arrivals": [], "returns": []}
+        self.engine_closed = []      # run ids whose RunStop was written by the engine's cleanup
+        self.uids = {}
+        self.schema_errors = []
+        self.plan_finished = False
+        self._closing_by_engine = False
         self.script = {int(k): v for k, v in sc.get("script", {}).items()}
         self.max_arrivals = sc.get("max_arrivals", 400)
         for name, spec in sc.get("devices", {}).items():
             cls = {"motor": PausableMotor if spec.get("pausable") else Motor, "det": Det, "sig": Sig}[spec["kind"]]
             self.devs[name] = cls(self, name, spec)
+
+    def led(self, entry):
+        self.ledger.append(entry)
+        self._t("ledger")
+
+    def ylog(self, entry):
+        self.yields.append(entry)
+        self._t("yields")
 
     # ------------------------------------------------------------------ canonical forms
     def canon(self, r):
@@ -286,9 +302,9 @@ class Harness:
             try:
                 r = yield m
             except BaseException as e:
-                self.yields.append([idx, "throw", exc_name(e)])
+                self.ylog([idx, "throw", exc_name(e)])
                 raise
-            self.yields.append([idx, "send", self.canon(r)])
+            self.ylog([idx, "send", self.canon(r)])
             return r
         if k == "seq":
             r = None
@@ -301,7 +317,7 @@ class Harness:
                     try:
                         r = yield from self.gen(st["body"])
                     except Exception as e:
-                        self.yields.append([-1, "caught", exc_name(e)])
+                        self.ylog([-1, "caught", exc_name(e)])
                         r = yield from self.gen(st["handler"])
                 else:
                     r = yield from self.gen(st["body"])
@@ -334,9 +350,15 @@ class Harness:
         for a in msg.args:
             args.append(a if isinstance(a, (int, bool, str, type(None))) else "x")
         self.msgs.append([msg.command, getattr(msg.obj, "name", None), msg.run, mid])
+        self._t("msgs")
+
+    def _t(self, key):
+        self.tick += 1
+        self.ticks[key].append(self.tick)
 
     def state_hook(self, new, old):
         self.states.append([str(old), str(new)])
+        self._t("trans")
 
     def on_doc(self, name, doc):
         d = {"k": name}
@@ -359,6 +381,19 @@ class Harness:
             d["reason_text"] = doc.get("reason", "")
             d["num_events"] = dict(sorted(doc.get("num_events", {}).items()))
         self.docs.append(d)
+        self._t("docs")
+        # tests (not theorems): uid uniqueness and event-model schema validity of the real documents
+        u = doc.get("uid")
+        if u is not None:
+            self.uids[u] = self.uids.get(u, 0) + 1
+        try:
+            from event_model import DocumentNames, schema_validators
+
+            schema_validators[DocumentNames[name]].validate(doc)
+        except Exception as e:  # noqa
+            self.schema_errors.append(f"{name}: {type(e).__name__}: {str(e)[:120]}")
+        if name == "stop" and self._closing_by_engine:
+            self.engine_closed.append(d["run"])
 
     @staticmethod
     def canon_reason(r):
@@ -373,6 +408,7 @@ class Harness:
     def arrive(self, kind):
         n = len(self.arrivals)
         self.arrivals.append(kind)
+        self._t("arrivals")
         if n >= self.max_arrivals:
             self.notes.append("max_arrivals reached: halting")
             self.loop.call_soon(self._do, {"a": "halt"})
@@ -451,6 +487,7 @@ class Harness:
             return False
         n = len(self.arrivals)
         self.arrivals.append("quiesce")
+        self._t("arrivals")
         acts = self.script.get(n, [])
         if n >= self.max_arrivals:
             self.notes.append("max_arrivals reached: halting")
@@ -552,6 +589,7 @@ def run_scenario(sc, timeout=20.0):
                     except BaseException as e:  # noqa
                         box["r"] = "raise:" + exc_name(e)
                         box["text"] = str(e)
+                        box["cause"] = exc_name(e.__cause__) if e.__cause__ is not None else ""
 
                 th = threading.Thread(target=target, daemon=True)
                 th.start()
@@ -561,9 +599,29 @@ def run_scenario(sc, timeout=20.0):
                     H.notes.append("hang in " + label)
                 H.returns.append([label, box["r"], str(RE.state), bool(RE._interrupted), bool(RE._deferred_pause_requested), len(RE._run_bundlers)])
                 H.return_texts.append(box.get("text", ""))
+                H.return_causes.append(box.get("cause", ""))
+                H._t("returns")
                 return box["r"] != "hang"
 
-            ok = guarded(lambda: RE(H.gen(sc["plan"])), "call")
+            def top():
+                r = yield from H.gen(sc["plan"])
+                H.plan_finished = True
+                return r
+
+            import bluesky.bundlers as B
+
+            orig_close = B.RunBundler.close_run
+
+            async def close_run(self_, msg):
+                H._closing_by_engine = "run_id" in msg.kwargs
+                try:
+                    return await orig_close(self_, msg)
+                finally:
+                    H._closing_by_engine = False
+
+            B.RunBundler.close_run = close_run
+            H._undo_close = lambda: setattr(B.RunBundler, "close_run", orig_close)
+            ok = guarded(lambda: RE(top()), "call")
             decisions = list(sc.get("decisions", []))
             while ok and str(RE.state) == "paused":
                 d = decisions.pop(0) if decisions else "resume"
@@ -573,6 +631,8 @@ def run_scenario(sc, timeout=20.0):
             H.staged_left = sorted(getattr(o, "name", "?") for o in RE._staged)
     finally:
         undo()
+        if hasattr(H, "_undo_close"):
+            H._undo_close()
         try:
             loop.call_soon_threadsafe(loop.stop)
         except Exception:
@@ -590,4 +650,11 @@ def run_scenario(sc, timeout=20.0):
         "final_state": getattr(H, "final_state", "?"),
         "subs_left": getattr(H, "subs_left", {}),
         "notes": H.notes,
+        "ticks": H.ticks,
+        "engine_closed": H.engine_closed,
+        "dup_uids": sorted(u for u, n in H.uids.items() if n > 1),
+        "schema_errors": H.schema_errors,
+        "plan_finished": H.plan_finished,
+        "return_causes": H.return_causes,
+        "statuses": [[st.dev, st.op, st.done, st.success] for st in H.statuses],
     }
